@@ -346,13 +346,20 @@ impl ChanceInfosetData {
 struct PlayerInfosetBuilder<A> {
     actions: Box<[A]>,
     prev_infoset: Option<usize>,
+    /// the index of the action taken at `prev_infoset`, only used to verify perfect recall
+    prev_action: Option<usize>,
 }
 
 impl<A> PlayerInfosetBuilder<A> {
-    fn new(actions: impl Into<Box<[A]>>, prev_infoset: Option<usize>) -> Self {
+    fn new(
+        actions: impl Into<Box<[A]>>,
+        prev_infoset: Option<usize>,
+        prev_action: Option<usize>,
+    ) -> Self {
         PlayerInfosetBuilder {
             actions: actions.into(),
             prev_infoset,
+            prev_action,
         }
     }
 }
@@ -448,6 +455,7 @@ impl<I: Hash + Eq, A: Hash + Eq> Game<I, A> {
             &mut [first_single, second_single],
             root,
             [None; 2],
+            [None; 2],
         )?;
         Ok(Game {
             chance_infosets: chance_infosets.into_iter().map(|(_, v)| v).collect(),
@@ -468,6 +476,7 @@ impl<I: Hash + Eq, A: Hash + Eq> Game<I, A> {
         single_infosets: &mut [&mut HashMap<I, A>; 2],
         node: T,
         mut prev_infosets: [Option<usize>; 2],
+        mut prev_actions: [Option<usize>; 2],
     ) -> Result<Node, GameError>
     where
         T: IntoGameNode<PlayerInfo = I, Action = A>,
@@ -493,6 +502,7 @@ impl<I: Hash + Eq, A: Hash + Eq> Game<I, A> {
                             single_infosets,
                             next,
                             prev_infosets,
+                            prev_actions,
                         )?);
                     } else {
                         return Err(GameError::NonPositiveChance);
@@ -557,6 +567,7 @@ impl<I: Hash + Eq, A: Hash + Eq> Game<I, A> {
                             single_infosets,
                             next,
                             prev_infosets,
+                            prev_actions,
                         )
                     }
                     _ => {
@@ -569,7 +580,9 @@ impl<I: Hash + Eq, A: Hash + Eq> Game<I, A> {
                                 let (ind, info) = ent.get();
                                 if *info.actions != *actions {
                                     Err(GameError::ActionsNotEqual)
-                                } else if &info.prev_infoset != player_num.ind(&prev_infosets) {
+                                } else if &info.prev_infoset != player_num.ind(&prev_infosets)
+                                    || &info.prev_action != player_num.ind(&prev_actions)
+                                {
                                     Err(GameError::ImperfectRecall)
                                 } else {
                                     Ok(ind)
@@ -581,6 +594,7 @@ impl<I: Hash + Eq, A: Hash + Eq> Game<I, A> {
                                     Ok(ent.insert(PlayerInfosetBuilder::new(
                                         actions,
                                         *player_num.ind(&prev_infosets),
+                                        *player_num.ind(&prev_actions),
                                     )))
                                 } else {
                                     Err(GameError::ActionsNotUnique)
@@ -590,13 +604,16 @@ impl<I: Hash + Eq, A: Hash + Eq> Game<I, A> {
                         *player_num.ind_mut(&mut prev_infosets) = Some(info_ind);
                         let next_verts: Result<Box<[_]>, _> = nexts
                             .into_iter()
-                            .map(|next| {
+                            .enumerate()
+                            .map(|(act_ind, next)| {
+                                *player_num.ind_mut(&mut prev_actions) = Some(act_ind);
                                 Game::init_recurse(
                                     chance_infosets,
                                     player_infosets,
                                     single_infosets,
                                     next,
                                     prev_infosets,
+                                    prev_actions,
                                 )
                             })
                             .collect();
